@@ -114,7 +114,7 @@ _GIN_V = (r"^impl < V : Value > Value for ValueWrapper < '_ , V >$", "write")
 _GW = r"^impl < W : ValueWriter > ValueWriter for ValueWriterWrapper < '_ , W >$"
 _GE = r"^impl < 'a , W : EntryWriter < 'a >> EntryWriter < 'a > for EntryWriterWrapper < '_ , W >$"
 _METRIC_PROOF = lambda field, dimsfield, argname: [
-    ("start", None, "let ghost verif_f0 = flag_id(flags); let ghost verif_u0 = unit; let ghost verif_d0 = distribution.elems(); let ghost verif_m0 = dims_view(%(a)s.elems());" % dict(a=argname)),
+    ("start", None, "let ghost verif_f0 = flag_id($arg3); let ghost verif_u0 = $arg1; let ghost verif_d0 = $arg0.elems(); let ghost verif_m0 = dims_view(%(a)s.elems());" % dict(a=argname)),
     ("end", None, """proof {
         let extra = cow_dims(self.%(d)s@);
         let (d, m) = choose|d: Seq<Observation>, m: Seq<(Seq<char>, Seq<char>)>| self.%(f)s.got(#[trigger] mk_metric(d, verif_u0, m, verif_f0))
@@ -134,7 +134,7 @@ ITEMS = [
                     "    open spec fn got(self, c: VCall) -> bool { self.value.got(with_dims(c, cow_dims(self.dimensions@))) }\n"),
     dict(kind="fn", file=CORE, impl=_CW, name="metric", label="dimensions::Wrapper::metric", impl_trait_args=True,
          rules={"R14": 2, "d2_cow_pairs": 1}, pre_rewrites=[d2_cow_pairs], unpinned=["d2_cow_pairs"], closures=_CL,
-         proofs=_METRIC_PROOF("value", "dimensions", "dimensions")),
+         proofs=_METRIC_PROOF("value", "dimensions", "$arg2")),
     dict(kind="fn", file=CORE, impl=_CW, name="error", label="dimensions::Wrapper::error"),
     dict(kind="fn", file=CORE, impl=_CV, name="write", label="<dimensions::Wrapper as Value>::write", impl_trait_args=True, rules={"R14": 1},
          impl_extra="    open spec fn call(&self) -> VCall { with_dims(self.value.call(), cow_dims(self.dimensions@)) }\n"),
@@ -160,7 +160,7 @@ ITEMS = [
                     "    open spec fn got(self, c: VCall) -> bool { self.writer.got(with_dims(c, cow_dims(self.global_dimensions@))) }\n"),
     dict(kind="fn", file=GLOB, inside_fn=_GIN_V, impl=_GW, name="metric", label="ValueWriterWrapper::metric", impl_trait_args=True,
          rules={"R14": 2, "d2_cow_pairs": 1}, pre_rewrites=[d2_cow_pairs], unpinned=["d2_cow_pairs"], closures=_CL,
-         proofs=_METRIC_PROOF("writer", "global_dimensions", "global_dimensions")),
+         proofs=_METRIC_PROOF("writer", "global_dimensions", "$arg2")),
     dict(kind="fn", file=GLOB, inside_fn=_GIN_V, impl=_GW, name="error", label="ValueWriterWrapper::error"),
     dict(kind="fn", file=GLOB, impl=_GIN_V[0], name="write", label="<ValueWrapper as Value>::write", impl_trait_args=True, rules={"R14": 1}, nested_items_dropped=True,
          impl_extra="    open spec fn call(&self) -> VCall { with_dims(self.value.call(), cow_dims(self.global_dimensions@)) }\n"),
